@@ -52,6 +52,7 @@ C_STMT = "@@\n@@\n anchor()\n-drop()\n"
 C_SIG = "@@\nvar f identifier\n@@\n-func f(marker int) {\n+func f(marker int, extra string) {\n   ...\n }\n"
 C_KIND = "@@\nvar f identifier\n@@\n-func f(marker int) {\n+var f = func(marker int) {\n   ...\n }\n"
 C_VAR = "@@\nvar v identifier\nvar x expression\n@@\n-var v marker = x\n+const v marker = x\n"
+C_TYPE = "@@\nvar t identifier\n@@\n-type t marker\n+type t = marker\n"
 
 
 def doc_lines(style, n):
@@ -84,6 +85,8 @@ def render_decl(s, n):
         val = "old(%d)" % n if s["touch"] == "expr" else ("use(1, /* expr %d */ 2)" % n if s["inner"] == "expr" else "value(%d)" % n)
         eol = " // eol %d" % n if s["inner"] == "eol" and not tr else ""
         out.append("var d%d %s= %s%s%s" % (n, "marker " if s["touch"] == "decl" else "", val, tr, eol))
+    elif s["touch"] == "decl":
+        out.append("type d%d marker%s" % (n, tr))
     else:
         out.append("type d%d struct {" % n)
         out.append("\tA int%s" % (" // eol %d" % n if s["inner"] == "eol" else ""))
@@ -118,6 +121,8 @@ def render(f, rng):
         changes.append(rng.choice([C_SIG, C_KIND]))
     if ("var", "decl") in touches:
         changes.append(C_VAR)
+    if ("type", "decl") in touches:
+        changes.append(C_TYPE)
     rng.shuffle(changes)
     return "\n".join(out), "\n".join(changes)
 
